@@ -7,11 +7,14 @@ import (
 	"os"
 	"os/exec"
 	"path/filepath"
+	"runtime/debug"
 	"strconv"
 	"strings"
 	"sync"
 	"sync/atomic"
+	"syscall"
 	"time"
+	"unsafe"
 
 	"github.com/scrapli/scrapligo/util"
 
@@ -291,6 +294,7 @@ func (c *ctx) c20seqBatch(hist [][]c20op, class string) {
 		go func() {
 			for i, h := range hist[lo:hi] {
 				cur.Store(int64(i))
+				c20crumb(c20opsLine(h))
 				impl[i] = c20runImpl(h)
 			}
 			close(done)
@@ -366,6 +370,9 @@ func (c *ctx) c20seqBatch(hist [][]c20op, class string) {
 			wantState := fmt.Sprintf("%d:%d:", impl[i].depth, impl[i].depth)
 			if ci != cs {
 				sig := "seq-wrong-result:" + c20firstDiff(h, ci, cs)
+				if strings.HasPrefix(sig, "seq-wrong-result:panic:") {
+					sig = "seq-panic"
+				}
 				res.Fail("oracle", lines[i], fmt.Sprintf("history %s: real queue returned %s, the list specification says %s", lines[i][8:], implOuts, spec), sig)
 			} else if !strings.HasPrefix(mstate, wantState) {
 				// same results but a different final depth than the model's (depth = token = slice length)
@@ -432,6 +439,7 @@ func (c *ctx) c20stressOne(cfg c20stress.Config) {
 		res.Count("conc:skipped-after-two-watchdog-hits")
 		return
 	}
+	c20crumb(line)
 	rep := c20stress.Run(cfg)
 	if rep.Violation == "conc-deadlock" {
 		c20deadlocks++
@@ -606,6 +614,7 @@ func (c *ctx) c20multiOne(cfg c20stress.MultiConfig, raceBin string) {
 	}
 	var rep c20stress.MultiReport
 	if raceBin == "" {
+		c20crumb(line)
 		rep = c20stress.RunMulti(cfg)
 	} else {
 		cmd := exec.Command(raceBin, "-mode", "multi", "-seed", strconv.FormatUint(cfg.Seed, 10), "-chunks", strconv.Itoa(cfg.Chunks),
@@ -943,8 +952,182 @@ func (c *ctx) c20raceChan(bin string, seed uint64, n int, only string) {
 	}
 }
 
+// ---- process isolation and breadcrumbs ----
+//
+// Everything that calls the implementation runs in a child process of this binary (the worker).
+// Panics are recovered where they happen and become findings; what cannot be recovered (a runtime
+// `fatal error`, e.g. "sync: Unlock of unlocked RWMutex", a panic in a goroutine of the library)
+// kills only the worker: it keeps a breadcrumb — the case it is working on — in a memory-mapped
+// file and writes its result file after every phase, so the parent still reports the completed
+// phases and an oracle finding on the last case attempted (confirmed by running that case alone).
+
+var (
+	c20crumbMem []byte
+	c20crumbN   uint64
+)
+
+const c20slot = 1 << 20
+
+// c20crumb records the case about to be attempted (two alternating slots; the header word says which
+// slot is complete, so a crash in the middle of an update leaves the previous case readable).
+func c20crumb(line string) {
+	if c20crumbMem == nil {
+		return
+	}
+	if len(line) > c20slot-16 {
+		line = line[:c20slot-16]
+	}
+	c20crumbN++
+	slot := int(c20crumbN % 2)
+	copy(c20crumbMem[8+slot*c20slot:], line)
+	atomic.StoreUint64((*uint64)(unsafe.Pointer(&c20crumbMem[0])), c20crumbN<<32|uint64(len(line)))
+}
+
+func c20crumbOpen(path string) {
+	f, err := os.OpenFile(path, os.O_RDWR, 0o600)
+	if err != nil {
+		return
+	}
+	defer f.Close()
+	m, err := syscall.Mmap(int(f.Fd()), 0, 8+2*c20slot, syscall.PROT_READ|syscall.PROT_WRITE, syscall.MAP_SHARED)
+	if err == nil {
+		c20crumbMem = m
+	}
+}
+
+func c20crumbRead(path string) string {
+	b, err := os.ReadFile(path)
+	if err != nil || len(b) < 8+2*c20slot {
+		return ""
+	}
+	h := *(*uint64)(unsafe.Pointer(&b[0]))
+	n, l := h>>32, int(h&0xffffffff)
+	if n == 0 || l > c20slot {
+		return ""
+	}
+	off := 8 + int(n%2)*c20slot
+	return string(b[off : off+l])
+}
+
+func c20excerpt(s string) string {
+	if i := strings.Index(s, "fatal error:"); i >= 0 {
+		s = s[i:]
+	} else if i := strings.Index(s, "panic:"); i >= 0 {
+		s = s[i:]
+	}
+	var keep []string
+	for _, l := range strings.Split(s, "\n") {
+		if len(keep) < 2 || strings.Contains(l, "scrapligo/") {
+			keep = append(keep, strings.TrimSpace(l))
+		}
+		if len(keep) > 14 {
+			break
+		}
+	}
+	return strings.Join(keep, " | ")
+}
+
+// c20worker runs the check body (or a replay line) in a child; ok = the child finished.
+func (c *ctx) c20worker(replay string) (child *vlib.Result, ok bool, crumb, stderr string) {
+	out, _ := os.CreateTemp("", "c20-worker-out-*")
+	cr, _ := os.CreateTemp("", "c20-worker-crumb-*")
+	cr.Truncate(8 + 2*c20slot)
+	out.Close()
+	cr.Close()
+	os.Remove(out.Name())
+	defer os.Remove(out.Name())
+	defer os.Remove(cr.Name())
+	args := []string{"C20", "-tier", c.tier, "-seed", strconv.FormatUint(c.seed, 10), "-driver", c.driver,
+		"-scale", strconv.Itoa(c.scale), "-out", out.Name()}
+	if replay != "" {
+		args = append(args, "-replay", replay)
+	}
+	cmd := exec.Command(os.Args[0], args...)
+	cmd.Env = append(os.Environ(), "C20_WORKER=1", "C20_CRUMB="+cr.Name())
+	var eb bytes.Buffer
+	cmd.Stderr = &eb
+	err := cmd.Run()
+	child = vlib.NewResult("C20")
+	if b, rerr := os.ReadFile(out.Name()); rerr == nil {
+		_ = json.Unmarshal(b, child)
+	}
+	if child.Distribution == nil {
+		child.Distribution = map[string]int{}
+	}
+	return child, err == nil, c20crumbRead(cr.Name()), eb.String()
+}
+
 func runC20(c *ctx) {
+	if os.Getenv("C20_WORKER") == "1" || strings.HasPrefix(c.replay, "c20 chanworker ") {
+		if p := os.Getenv("C20_CRUMB"); p != "" && !strings.HasPrefix(c.replay, "c20 chanworker ") {
+			c20crumbOpen(p)
+		}
+		runC20body(c)
+		return
+	}
+	child, ok, crumb, stderr := c.c20worker(c.replay)
+	*c.res = *child
+	if ok {
+		return
+	}
 	res := c.res
+	res.Note("the worker process died; the phases it had completed are reported, the rest was not run")
+	what := c20excerpt(stderr)
+	replayable := strings.HasPrefix(crumb, "c20 seq ") || strings.HasPrefix(crumb, "c20 conc ") || strings.HasPrefix(crumb, "c20 multi ") || strings.HasPrefix(crumb, "c20 obs ")
+	if crumb == "" || !replayable {
+		res.Fail("oracle", crumb, "the process that runs the implementation died (last case attempted: "+crumb+"): "+what, "process-died")
+		return
+	}
+	// run the last case alone
+	res.Evaluations++
+	c2, ok2, _, stderr2 := c.c20worker(crumb)
+	if len(c2.Findings) > 0 {
+		res.Findings = append(res.Findings, c2.Findings...)
+	}
+	switch {
+	case !ok2:
+		res.Fail("oracle", crumb, "the process that runs the implementation dies on this case, also when it is run alone: "+c20excerpt(stderr2), "process-died")
+	case len(c2.Findings) == 0:
+		res.Fail("oracle", crumb, "the process that runs the implementation died while working on this case (not reproduced when the case was run alone): "+what, "process-died")
+	}
+}
+
+// c20observe runs one observation (never judged by what it observes; a panic of the implementation
+// during it is a finding like anywhere else).
+func (c *ctx) c20observe(line string) {
+	res := c.res
+	c20crumb(line)
+	defer func() {
+		if p := recover(); p != nil {
+			res.Case(line, true)
+			res.Fail("oracle", line, fmt.Sprintf("panic in a single-goroutine run of Enqueue / Dequeue / Requeue / DequeueAll calls (%s): %v | %s", line, p, c20excerpt(string(debug.Stack()))), "seq-panic")
+		}
+	}()
+	f := strings.Fields(line)
+	switch {
+	case len(f) >= 3 && f[2] == "headretention":
+		hi, hm := c20stress.HeadRetention()
+		res.Note("observation (memory, no bytes involved): after Dequeue the backing array keeps the handed-out chunk reachable while nothing is enqueued: %v; after 64 further Enqueue calls: %v", hi, hm)
+	case len(f) >= 4 && f[2] == "longrun":
+		n, _ := strconv.Atoi(strings.TrimPrefix(f[3], "ops="))
+		res.Note("observation (memory): %s", c20stress.LongRun(n))
+	}
+}
+
+func runC20body(c *ctx) {
+	res := c.res
+	defer func() {
+		// a panic on this goroutine while calling the implementation: report it on the case in hand
+		if p := recover(); p != nil {
+			last := ""
+			if c20crumbMem != nil {
+				h := atomic.LoadUint64((*uint64)(unsafe.Pointer(&c20crumbMem[0])))
+				off := 8 + int((h>>32)%2)*c20slot
+				last = string(c20crumbMem[off : off+int(h&0xffffffff)])
+			}
+			res.Fail("oracle", last, fmt.Sprintf("panic while calling the implementation: %v | %s", p, c20excerpt(string(debug.Stack()))), "seq-panic")
+		}
+	}()
 	res.Rule = "sequential: every history of the exact length L (quick 6, thorough 7) over {Enqueue A, Enqueue B, Requeue A, Requeue B, Dequeue, DequeueAll, GetDepth} (every shorter history is a prefix), every history of length 5 (thorough 6) over {Enqueue A/B, Dequeue, DequeueAll, put back the last result, put back its second half, Enqueue(nil), Requeue(nil), GetDepth} + random histories up to 200 calls over chunks incl. empty / nil / 64 KiB / repeated; real util.Queue vs Lean Seq model vs list spec: all results, final depth, returned slices must not change afterwards (DequeueAll buffers are overwritten by the caller), Dequeue nil-ness pinned. integration: real channel.Channel over a scripted transport in a child process (kinds read, readall, mixed, prompt, explicit, fuzzy, getprompt, login-ssh, login-telnet, read-err, eof x read sizes 1..300 KiB x reads of length 0 / normalising to empty or nil x CR/ANSI x delays x feeding x channel log), judged end to end: normalised transport bytes = bytes operations obtained ++ bytes left, put-backs first, channel log = stream; replayed by the Lean reader consumeB with the model's normalisation; same under -race. concurrent: one producer + one consumer goroutine on the real queue (chunks of 1 byte .. 68 KiB), GOMAXPROCS 1/2/4/16, consumer checks its stream through a push-back reader (also replayed by the Lean reader `consume`), GetDepth bounds, nil-only-when-empty, watchdog; one producer + 2 and 3 consumer goroutines (Dequeue / DequeueAll / GetDepth / Requeue of fresh chunks): no panic, no hang, every produced chunk delivered exactly once, per-consumer stream order; the same under -race in a child process. non-trivial = history with at least one insert and one removal (distinct by history) / every stress or integration run (distinct by configuration)"
 	if c.replay != "" {
 		if ops, ok := c20parseLine(c.replay); ok {
@@ -1036,6 +1219,10 @@ func runC20(c *ctx) {
 			}
 			return
 		}
+		if strings.HasPrefix(c.replay, "c20 obs ") {
+			c.c20observe(c.replay)
+			return
+		}
 		res.Fail("machinery", c.replay, "unparsable replay line", "driver")
 		return
 	}
@@ -1051,6 +1238,9 @@ func runC20(c *ctx) {
 	phase := func(name string) {
 		phases = append(phases, fmt.Sprintf("%s %.1fs", name, time.Since(t0).Seconds()))
 		t0 = time.Now()
+		if c.out != "" && c20crumbMem != nil {
+			_ = c.res.Write(c.out) // what is done so far survives a death of this process
+		}
 	}
 	defer func() { res.Note("phase times: %s", strings.Join(phases, ", ")) }()
 	r := c.rng
@@ -1202,9 +1392,8 @@ func runC20(c *ctx) {
 	phase("channel integration")
 	// observations, never judged
 	{
-		hi, hm := c20stress.HeadRetention()
-		res.Note("observation (memory, no bytes involved): after Dequeue the backing array keeps the handed-out chunk reachable while nothing is enqueued: %v; after 64 further Enqueue calls: %v", hi, hm)
-		res.Note("observation (memory): %s", c20stress.LongRun(c.n(200000, 1000000)))
+		c.c20observe("c20 obs headretention")
+		c.c20observe(fmt.Sprintf("c20 obs longrun ops=%d", c.n(200000, 1000000)))
 	}
 	phase("observations")
 	// concurrent stress, in-process
